@@ -52,9 +52,9 @@ package derive
 // Assumption EqIsEquivalence (C11 quantifies over pairwise non-assignable types,
 // on which assignability is an equivalence); where it does not hold the
 // consequences belong to C08 (nameOf).
-//@ axiom forall a []types.Type :: eq(a, a)
-//@ axiom forall a []types.Type, b []types.Type :: eq(a, b) ==> eq(b, a)
-//@ axiom forall a []types.Type, b []types.Type, c []types.Type :: eq(a, b) && eq(b, c) ==> eq(a, c)
+//@ axiom [EqIsEquivalence] forall a []types.Type :: eq(a, a)
+//@ axiom [EqIsEquivalence] forall a []types.Type, b []types.Type :: eq(a, b) ==> eq(b, a)
+//@ axiom [EqIsEquivalence] forall a []types.Type, b []types.Type, c []types.Type :: eq(a, b) && eq(b, c) ==> eq(a, c)
 
 //@ func eq(this, that []types.Type) (r bool)
 //@ pure
@@ -66,6 +66,10 @@ package derive
 //@ assigns nothing
 //@ ensures ok ==> name in F && eq(typs, F[name])
 //@ ensures !ok ==> forall n string :: n in F ==> !eq(typs, F[n])
+// C08: the loop ranges over a Go map; the answer must not depend on the order.
+// Given a table whose entries are pairwise not eq, at most one entry matches -
+// provided eq is symmetric and transitive, which assignability is not in general.
+//@ ensures [determinate] (forall a string, b string :: a in F && b in F && a != b ==> !eq(F[a], F[b])) ==> (ok ==> forall n string :: n in F && eq(typs, F[n]) ==> n == name)
 //@ loop 2: invariant forall n string :: visited(n) ==> !eq(typs, F[n])
 
 //@ func (tm *typesMap) TypeString(typ types.Type) (r string)
@@ -418,3 +422,37 @@ package derive
 //@ extern func strings.Join(elems []string, sep string) (r string)
 //@ pure
 //@ ensures r == strJoin(elems, sep)
+
+// ---------------------------------------------------------------------------
+// C08: the map-range loops of the generator's own code do not make its result
+// depend on the iteration order.
+
+//@ extern func (g *Generator) Done() (r bool)
+//@ pure
+
+//@ func (pkg *pkg) Done() (r bool)
+//@ noinv
+//@ assigns nothing
+//@ requires [generators-non-nil] pkg.generators != nil && forall n string :: n in pkg.generators ==> pkg.generators[n] != nil
+//@ ensures [determinate] r <==> forall n string :: n in pkg.generators ==> derive.Generator.Done(pkg.generators[n])
+//@ loop 1: invariant forall n string :: visited(n) ==> derive.Generator.Done(pkg.generators[n])
+
+// printer.WriteTo: the order-dependent data leaving the loop over p.imports are
+// the slice paths (sorted next) and the map pathToQual; with one alias per path
+// they are determined: paths holds every imported path exactly once, sorted, and
+// pathToQual is the inverse of imports. The second loop ranges over the slice.
+//@ extern func bytes.NewBuffer(buf []byte) (r *bytes.Buffer)
+//@ assigns nothing
+//@ ensures r != nil
+//@ extern func (b *bytes.Buffer) WriteString(s string) (n int, err error)
+//@ assigns nothing
+//@ extern func (b *bytes.Buffer) WriteTo(w io.Writer) (n int64, err error)
+//@ assigns nothing
+
+//@ func (p *printer) WriteTo(file io.Writer) (n int64, err error)
+//@ assigns nothing
+//@ requires [one-alias-per-path] p.imports != nil && p.w != nil && forall a string, b string :: a in p.imports && b in p.imports && p.imports[a] == p.imports[b] ==> a == b
+//@ loop 2: invariant [paths-determined] distinct(paths) && len(paths) == len(p.imports) && (forall j int :: 0 <= j && j < len(paths) ==> pathToQual[paths[j]] in p.imports && p.imports[pathToQual[paths[j]]] == paths[j]) && (forall q string :: q in p.imports ==> elemOf(p.imports[q], paths) && pathToQual[p.imports[q]] == q) && (forall a int, b int :: 0 <= a && a < b && b < len(paths) ==> !strlt(paths[b], paths[a]))
+//@ loop 1: invariant pathToQual != nil && len(paths) == $count && distinct(paths)
+//@ loop 1: invariant forall j int :: 0 <= j && j < len(paths) ==> visited(pathToQual[paths[j]]) && p.imports[pathToQual[paths[j]]] == paths[j]
+//@ loop 1: invariant forall q string :: visited(q) ==> elemOf(p.imports[q], paths) && pathToQual[p.imports[q]] == q
